@@ -840,7 +840,7 @@ func TestCheck(t *testing.T) {
 		c, nt, cl := genHistory(rt)
 		kHist.Check(rt, c, nt, cl...)
 	})
-	rec.Rapid(t, "shared", rec.N(30, 120), func(rt *rapid.T) {
+	rec.Rapid(t, "shared", rec.N(30, 60), func(rt *rapid.T) {
 		c, nt, cl := genShared(rt)
 		kShared.Check(rt, c, nt, cl...)
 	})
